@@ -125,46 +125,72 @@ func parseSingleConstraint(c string) ([]*constraint, error) {
 	return []*constraint{{operator: "=", version: c}}, nil
 }
 
-// parseCaretRange handles caret ranges (^1.2.3)
+// padPartial completes a partial version (1, 1.2) with zeros and reports how many
+// components were written; anything else is returned unchanged
+func padPartial(version string) (string, int) {
+	if strings.ContainsAny(version, "-+") {
+		return version, 3
+	}
+	switch strings.Count(version, ".") {
+	case 0:
+		return version + ".0.0", 1
+	case 1:
+		return version + ".0", 2
+	}
+	return version, 3
+}
+
+// parseCaretRange handles caret ranges like ^1.2.3, ^1.2, ^1
 func parseCaretRange(version string) ([]*constraint, error) {
 	e := &Ecosystem{}
-	v, err := e.NewVersion(version)
+	padded, written := padPartial(version)
+	v, err := e.NewVersion(padded)
 	if err != nil {
 		return nil, err
 	}
 
-	// Special rules for caret ranges with zero versions
-	if v.major == 0 {
-		if v.minor == 0 {
-			// ^0.0.3 means >=0.0.3 <0.0.4 (only patch changes)
+	// Caret allows changes that do not modify the left-most non-zero digit; components that
+	// were not written are free (^0 := <1.0.0-0, ^0.0 := <0.1.0-0)
+	if v.major == 0 && written > 1 {
+		if v.minor == 0 && written > 2 {
+			// ^0.0.x allows only patch-level changes
 			return []*constraint{
 				{operator: ">=", version: v.normalize()},
 				{operator: "<", version: fmt.Sprintf("0.0.%d-0", v.patch+1)},
 			}, nil
 		}
-		// ^0.2.3 means >=0.2.3 <0.3.0-0 (patch and minor changes, excludes prereleases from next minor)
+		// ^0.x.y allows patch-level changes
 		return []*constraint{
 			{operator: ">=", version: v.normalize()},
 			{operator: "<", version: fmt.Sprintf("0.%d.0-0", v.minor+1)},
 		}, nil
 	}
 
-	// ^1.2.3 means >=1.2.3 <2.0.0-0 (excludes prereleases from next major)
+	// ^x.y.z allows minor and patch-level changes
 	return []*constraint{
 		{operator: ">=", version: v.normalize()},
 		{operator: "<", version: fmt.Sprintf("%d.0.0-0", v.major+1)},
 	}, nil
 }
 
-// parseTildeRange handles tilde ranges (~1.2.3)
+// parseTildeRange handles tilde ranges like ~1.2.3, ~1.2, ~1
 func parseTildeRange(version string) ([]*constraint, error) {
 	e := &Ecosystem{}
-	v, err := e.NewVersion(version)
+	padded, written := padPartial(version)
+	v, err := e.NewVersion(padded)
 	if err != nil {
 		return nil, err
 	}
 
-	// ~1.2.3 means >=1.2.3 <1.3.0-0 (excludes prereleases from next minor)
+	// ~1 := >=1.0.0 <2.0.0-0
+	if written == 1 {
+		return []*constraint{
+			{operator: ">=", version: v.normalize()},
+			{operator: "<", version: fmt.Sprintf("%d.0.0-0", v.major+1)},
+		}, nil
+	}
+
+	// Tilde allows patch-level changes
 	return []*constraint{
 		{operator: ">=", version: v.normalize()},
 		{operator: "<", version: fmt.Sprintf("%d.%d.0-0", v.major, v.minor+1)},
